@@ -548,6 +548,12 @@ func recordC01(env *Env) {
 		seeds[i] = env.rng.Int63()
 	}
 	cmdEvery := env.optInt("cmdevery", 5)
+	emit := func(ev c01Event) { // flushed: a panic inside a goroutine of the library would lose the buffered events
+		env.emit(ev)
+		env.mu.Lock()
+		env.w.Flush()
+		env.mu.Unlock()
+	}
 	parallel(len(plans), 0, func(i int) {
 		p := plans[i]
 		rng := rand.New(rand.NewSource(seeds[i]))
@@ -586,33 +592,33 @@ func recordC01(env *Env) {
 		flat := p.fmt == "genbank" || p.fmt == "embl"
 		if p.huge {
 			f.cls = p.fmt + "/128MiB"
-			env.emit(sh.evChunks(f, 128*c01MiB, "whole"))
-			env.emit(sh.evRead(f, "file", 4))
+			emit(sh.evChunks(f, 128*c01MiB, "whole"))
+			emit(sh.evRead(f, "file", 4))
 			if bindir != "" {
-				env.emit(sh.evCmd(f, bindir, "file", 4))
+				emit(sh.evCmd(f, bindir, "file", 4))
 			}
 			return
 		}
-		env.emit(sh.evChunks(f, c01MiB, c01Variants[i%len(c01Variants)]))
+		emit(sh.evChunks(f, c01MiB, c01Variants[i%len(c01Variants)]))
 		ws := []int{1, 2, 3, 4, 8}
 		if !flat || i%4 == 0 { // ReadGenbank / ReadEMBL allocate their 128 MiB buffer
-			env.emit(sh.evRead(f, "file", ws[rng.Intn(len(ws))]))
-			env.emit(sh.evRead(f, "gz", ws[rng.Intn(len(ws))]))
+			emit(sh.evRead(f, "file", ws[rng.Intn(len(ws))]))
+			emit(sh.evRead(f, "gz", ws[rng.Intn(len(ws))]))
 		}
 		if p.multi {
 			for _, w := range []int{2, 3, 8} {
-				env.emit(sh.evRead(f, "file", w))
+				emit(sh.evRead(f, "file", w))
 			}
 		}
 		if !flat {
-			env.emit(sh.evRead(f, "kseq", 1))
+			emit(sh.evRead(f, "kseq", 1))
 			if i%3 == 0 {
-				env.emit(sh.evRead(f, "kseqgz", 1))
+				emit(sh.evRead(f, "kseqgz", 1))
 			}
 		}
 		if bindir != "" && (i%cmdEvery == 0 || p.multi) {
 			for _, via := range []string{"file", "stdin", "gz"} {
-				env.emit(sh.evCmd(f, bindir, via, ws[rng.Intn(len(ws))]))
+				emit(sh.evCmd(f, bindir, via, ws[rng.Intn(len(ws))]))
 			}
 		}
 	})
